@@ -174,6 +174,18 @@ func checkC04(c *Ctx) {
 				why = "emitted after Tty.Stop or on a path that does not reach it"
 				continue
 			}
+			// resets belong to the final critical section, after the loops were joined: between the
+			// join and Stop the lock is held, so no application call can switch the mode back on
+			joined := false
+			for _, w := range callsIn(disengage, func(n string, _ *ssa.CallCommon) bool { return n == "(*sync.WaitGroup).Wait" }) {
+				if instrDominates(w, s) {
+					joined = true
+				}
+			}
+			if !joined {
+				why = "emitted before the loops are joined (the lock is released while waiting; a concurrent Enable* call would not be undone)"
+				continue
+			}
 			bad := []string{}
 			for _, a := range guardsAt(s.Block()) {
 				as := a.String()
